@@ -2,6 +2,7 @@
 import itertools
 
 from engine import chx, report, stubs, sym
+from engine import sym as S
 from engine.chx import Cell
 
 M = "harness.iso"
@@ -43,9 +44,60 @@ def frac(k, comma):
     return [44 if comma else 46] + [D] * k
 
 
+def h_offset_history(entry):
+    """Two parses in a row whose offsets are related (equal, negated, exactly 24 h apart, same minutes): the offset of
+    each result is the one rendered, whatever was parsed before and whichever results are still alive.  Hours/minutes/sign
+    and the relation are pinned per path by the solver; the check runs natively (the zone factory's real cache)."""
+    import datetime
+    from dateutil.parser import isoparser
+    types = dict(h=int, m=int, neg=bool, rel=int, keep=bool)
+
+    def render(off):
+        sign = "-" if off < 0 else "+"
+        a = abs(off)
+        return "%s%02d:%02d" % (sign, a // 60, a % 60)
+
+    def fn(ctx, h, m, neg, rel, keep):
+        ctx.assume(S.within(h, 0, 23))
+        ctx.assume(S.within(m, 0, 3))
+        ctx.assume(S.within(rel, 0, 4))
+        h, m, neg, rel, keep = ctx.concrete(h), ctx.concrete(m) * 15, ctx.concrete(neg), ctx.concrete(rel), ctx.concrete(keep)
+        o1 = (-1 if neg else 1) * (h * 60 + m)
+        o2 = [o1, -o1, o1 - 1440, o1 + 1440, o1 + 60][rel]
+        if not (-1440 < o2 < 1440) or (rel >= 2 and o1 == 0 and False):
+            ctx.assume(False)
+        if ctx.symbolic:
+            return None
+        with ctx.untraced():
+            p = isoparser()
+            outs = []
+            for off in (o1, o2, o1):
+                if entry == "dt":
+                    r = p.isoparse("2021-03-04T12:30:15" + render(off))
+                    ok = r.replace(tzinfo=None) == datetime.datetime(2021, 3, 4, 12, 30, 15)
+                elif entry == "time":
+                    r = p.parse_isotime("12:30:15" + render(off))
+                    ok = r.replace(tzinfo=None) == datetime.time(12, 30, 15)
+                else:
+                    r = datetime.datetime(2021, 3, 4, 12, 30, 15, tzinfo=p.parse_tzstr(render(off)))
+                    ok = True
+                if keep:
+                    outs.append(r)
+                ctx.check(ok, "wall time changed", key="history:%s:wall" % entry)
+                ctx.check(r.utcoffset() == datetime.timedelta(minutes=off),
+                          "after parsing offsets %s the text %s gives utcoffset %r" % ([render(o) for o in (o1, o2)], render(off), r.utcoffset()),
+                          key="history:%s:offset" % entry)
+            for r, off in zip(outs, (o1, o2, o1)):
+                ctx.check(r.utcoffset() == datetime.timedelta(minutes=off), "an earlier result changed its offset", key="history:%s:later" % entry)
+        return None
+    return fn, types
+
+
 def cells(tier):
     q = tier == "quick"
     cs = []
+    for entry in ("dt", "time", "tz"):
+        cs.append(Cell("harness.c07", "h_offset_history", dict(entry=entry), budget_s=120))
 
     def add(entry, name, tpl, budget, sep=None, week=False, via="bytes"):
         params = dict(entry=entry, tpl=tpl, mode="c07", sep=sep, via=via)
@@ -103,6 +155,7 @@ def cells(tier):
 
 
 ASSUMPTIONS = [
+    "offset-history cells: two related offsets (equal / negated / 24 h apart / one hour apart, quarter-hour resolution) parsed in a row, pinned per path, run natively on the real zone factory",
     "input is bytes (str/stream paths only add .encode('ascii') / .read())",
     "builtin int as seen from dateutil.parser.isoparser = DFA model of CPython's int(bytes) (validated each run); "
     "bytes.isdigit / `in b'...'` on symbolic bytes = fork-free definitions",
